@@ -2,7 +2,7 @@
 from .common import combined
 from . import static_rules, cli_rules
 LEVEL = 'other'
-RULES = ('R15.a', 'R15.b', 'R15.c', 'R15.d', 'R15.f', 'R15.h', 'R14.t', 'R04.c', 'R04.d')
+RULES = ('R15.k', 'R15.m', 'R15.a', 'R15.b', 'R15.c', 'R15.d', 'R15.f', 'R15.h', 'R14.t', 'R04.c', 'R04.d')
 
 
 def run(prog, rec, tier):
